@@ -9,7 +9,7 @@
 
    FULL PROPERTY (text of C08): for every history, size function >= 0 and limit > 0, the answers and
    callback logs equal those of the reference LRU:  run_new hv lim ops = map ok_event (s2_run [] ops).
-   - for the heap variant [repaired] this is C08_refines_S2_repaired (see below, when present);
+   - for the heap variant [repaired] this is C08_refines_S2_repaired;
    - for the heap variant [pinned] (the code as it is: known finding F2) it is FALSE of the
      faithful model: C08_victim_refuted;
    - everything in it except WHICH present entry is evicted first holds for EVERY variant:
@@ -17,7 +17,7 @@
 From Coq Require Import ZArith List Bool.
 Import ListNotations.
 From Mds Require Import Heapq.HeapqModel Cache.CacheSpec Cache.CacheModel Cache.CacheWitness
-  Cache.CacheLruProofs Cache.CacheTheorems.
+  Cache.CacheLruProofs Cache.CacheTheorems Cache.CacheTheoremsS2.
 Local Open Scope Z_scope.
 
 (* For every heap variant, key type with decidable equality, size function >= 0, limit > 0 and
@@ -75,6 +75,29 @@ Example C08_consistent_ex :
             map (fun e => (lastAccess e, key e)) (data (access (store c))) = [(3, 3); (4, 1); (5, 4)] /\
             present (store c) = [(1, 1); (3, 0); (4, 2)].
 Proof. eexists. split; [vm_compute; reflexivity|]. split; vm_compute; reflexivity. Qed.
+
+(* THE FULL PROPERTY, under the repaired heap (parent (i-1)/2, pop sifts up as well): for every key
+   type with decidable equality, size function >= 0, limit > 0 and history, the results and the
+   callback logs of the model are exactly those of the reference LRU S2 (recency list; Put and
+   successful Get are uses, Has is not; a fitting Put reports the replaced entry, then evicts the
+   least recently used entries, in that order, exactly as long as needed; a Put larger than the
+   limit is refused and changes nothing; Len/Size are the number and total size of the present
+   entries; Remove and Clear report every departing entry once) — and no call panics. *)
+Theorem C08_refines_S2_repaired :
+  forall (K V : Type) (keqb : K -> K -> bool),
+    (forall a b, keqb a b = true <-> a = b) ->
+  forall (kzero : K) (vzero : V) (sizeOf : V -> Z),
+    (forall v, 0 <= sizeOf v) ->
+  forall (lim : Z) (ops : list (op K V)),
+    0 < lim ->
+    run_new K V keqb kzero vzero sizeOf repaired lim ops = map ok_event (s2_run K V keqb vzero sizeOf lim [] ops).
+Proof. exact refines_S2_repaired. Qed.
+Print Assumptions C08_refines_S2_repaired.
+
+Example C08_refines_S2_repaired_ex :
+  s2_run Z Z Z.eqb 0 unit_size 2 [] [OPut 1 10; OPut 2 20; OGet 1; OPut 3 30; OHas 2; OGet 9]
+  = [(RBool true, []); (RBool true, []); (RGet 10 true, []); (RBool true, [(2, 20)]); (RBool false, []); (RGet 0 false, [])].
+Proof. vm_compute. reflexivity. Qed.
 
 (* Under the pinned heap (known finding F2) the full property is false of the faithful model: there
    is a history (15 calls, limit 7, unit sizes, corpus/C08) whose answers differ from the reference
